@@ -67,7 +67,9 @@ def run(chk, tier, proof_ok):
     if unexplained() and not new_inputs(findings) and tier == 'quick':
         # a proof obligation or the correspondence is broken and the light search found no (new)
         # failing input: run the full search before reporting `no-failing-input-found`
-        units = Q.plan_units(chk.seed, 'thorough', full=True)
+        # (bounded: two more light passes with other seeds, so that the quick tier stays quick; the
+        # thorough tier runs the full grids)
+        units = Q.plan_units(chk.seed + 101, 'quick') + Q.plan_units(chk.seed + 202, 'quick')
         more, agg2 = Q.run_units(units, workers=workers)
         findings = findings + more
         for k, v in agg2.items():
